@@ -245,7 +245,9 @@ void Search::print_info(Value result, Depth depth, int64_t elapsed, Info* info)
 
 void Search::iter_search()
 {
-    _best_move = NO_MOVE;
+    // fall back to a root move: the search may be stopped before the first
+    // iteration completes and must still answer with a legal move
+    _best_move = _root_moves.empty() ? NO_MOVE : _root_moves.front();
 
     TimePoint end_time;
     int64_t elapsed = 0LL;
